@@ -451,13 +451,13 @@ func (hs *clientHandshakeState) handshake() error {
 		c.hsState.Store(int32(stateWaiting))
 		c.retransmitTimer.reset()
 
-		// 创建会话
-		if err = hs.createNewSession(); err != nil {
+		// 读取 Flight 6（CCS + Finished），支持超时重传
+		if err = hs.readFinished(c.serverFinished[:]); err != nil {
 			return err
 		}
 
-		// 读取 Flight 6（CCS + Finished），支持超时重传
-		if err = hs.readFinished(c.serverFinished[:]); err != nil {
+		// 创建会话：只有在验证了服务端 Finished 之后才缓存，握手失败的会话不得被再次提供
+		if err = hs.createNewSession(); err != nil {
 			return err
 		}
 	}
